@@ -79,7 +79,7 @@ CLAIMED = {
          "fixed seed; TLC compares every result with the spec value of the monolithic schema (Encode, Norm, JsonEnc, CanonText) and parses the "
          "container header on its own (AvroFile!ParseFile).",
          "TLA+ spec (AvroSchema, AvroBinary, AvroJson, AvroCanon, AvroFile) + TLC trace validation", "3/C12"),
- "C17": ("V: every history of length 2 over an alphabet of ~24 concrete public calls chosen to collide (same type names defined differently, reused "
+ "C17": ("V: every history of length 2 over an alphabet of 39 concrete public calls chosen to collide (same type names defined differently, one enum name with permuted symbols, reused "
          "parsed-schema objects, calls failing midway, decimals of different precision, JSON defaults, generate, load, resolution, interleaved readers) "
          "plus random histories of length 3-6, each in a freshly imported library; TLC compares each call's projected result with the same call made "
          "first in a fresh library and the projected arguments before/after.",
